@@ -112,7 +112,7 @@ func SuperTriangle(points []vector2.Float64) []vector2.Float64 {
 
 	top := vector2.New(
 		xMiddle,
-		min.Y()+(height*20),
+		max.Y()+(height*20)+2,
 	)
 
 	left := vector2.New(
